@@ -260,6 +260,7 @@ class Kernel:
         self.log = []           # every request in order
         self.fail_at = None     # index (0-based, over SA requests of this step) at which the kernel refuses
         self.n_req = 0
+        self.n_eexist = 0       # NEWSA requests refused because the SA exists
 
     def _fails(self):
         """wire-level kernel: is this SA request the one that is refused?"""
@@ -281,6 +282,10 @@ class Kernel:
                    enc_algorithm=enc_algorithm, sk_e=sk_e, auth_algorithm=auth_algorithm, sk_a=sk_a, lifetime=lifetime)
         self.log.append(rec)
         self._maybe_fail('NEWSA')
+        if self.key(dst, ipsec_proto, spi) in self.sad:
+            # XFRM_MSG_NEWSA for an SA that exists (same destination, protocol, SPI): EEXIST, the SA that is there stays as it is
+            self.n_eexist += 1
+            raise MODS['xfrm'].NetlinkError(f'EEXIST: an SA for {dst}/{ipsec_proto}/{spi!r} exists')
         self.sad[self.key(dst, ipsec_proto, spi)] = rec
 
     @staticmethod
@@ -357,6 +362,10 @@ class WireSock:
             rec = dict(op='NEWSA', spi=spi, dst=daddr, ipsec_proto=proto, raw=data)
             k.log.append(rec)
             if k._fails():
+                err = -17
+            elif k.key(daddr, proto, spi) in k.sad:
+                # an SA with this destination, protocol and SPI exists: EEXIST, the existing SA stays as it is
+                k.n_eexist += 1
                 err = -17
             else:
                 k.sad[k.key(daddr, proto, spi)] = rec
